@@ -40,12 +40,14 @@ OVERHEAD = 9
 
 def rq(k, seg=SEG):
     """request payload length that yields exactly k full segments (6-octet segment header)"""
-    return k * (seg - 6) - OVERHEAD
+    from bv.props.c05 import rq as _rq
+    return _rq(k, seg)
 
 
 def rs(k, seg=SEG):
     """response payload length that yields exactly k full segments (5-octet segment header)"""
-    return k * (seg - 5) - OVERHEAD
+    from bv.props.c05 import rs as _rs
+    return _rs(k, seg)
 
 
 def configs(tier):
@@ -143,6 +145,7 @@ def judge(sysm, terminal=True):
                if any(c[3] == req.apduInvokeID for c in confs)}
     O.judge_payloads(sysm, got, problems)
     O.judge_late_frames(sysm, got, problems)
+    O.judge_retransmissions(sysm, problems)
     nreq = max(O.seg_count(r[0] + OVERHEAD, cfg.c["maxapdu"] - 6) for r in cfg.reqs)
     nresp = max(O.seg_count(r[1] + OVERHEAD, min(cfg.c["maxapdu"], cfg.s["maxapdu"]) - 5) for r in cfg.reqs)
     if terminal:
